@@ -196,11 +196,123 @@ def gen_large_instances(rng, count, nmax=12):
     return out
 
 
+# ---- inversion level: settings matrix, forced zeros, per-object model data ---------------------------------------
+def _pow2_scale(maxabs, target):
+    if maxabs <= 0:
+        return 1.0
+    return 2.0 ** np.floor(np.log2(target / maxabs))
+
+
+def _system_record(A, b, s, api, variant, zeros=None, spd=True):
+    """generic real-valued system -> fixed point (inexact: a, beta and sigma are all rounded)"""
+    n = len(b)
+    alpha = _pow2_scale(float(np.abs(A).max()), 2.0 ** 14)
+    gamma = _pow2_scale(max(float(np.abs(s).max()), 1e-30), 2.0 ** 12) if np.abs(s).max() > 0 else 2.0 ** 12
+    # keep beta*gamma below 2^30
+    while np.abs(b).max() * alpha * gamma >= 2.0 ** 30:
+        gamma /= 2.0
+    if gamma < 1.0:
+        alpha *= gamma
+        gamma = 1.0
+    unc = np.linalg.solve(A, b)
+    r = {"p": "C05", "api": api, "variant": variant, "n": n, "a": np.rint(A * alpha).astype(np.int64).tolist(),
+         "beta": np.rint(b * alpha).astype(np.int64).tolist(), "gamma": int(gamma), "sigma": np.rint(s * gamma).astype(np.int64).tolist(),
+         "exact": False, "spd": bool(spd), "raised": False, "unc_has_nonpositive": bool((unc <= 1e-12 * max(1.0, np.abs(unc).max())).any()),
+         "exact_zero": [bool(x == 0.0) for x in s]}
+    if zeros is not None:
+        r["zeros"] = [int(z) + 1 for z in zeros]
+    return r
+
+
+def inversion_records(inst, dmode):
+    import autoarray as aa
+    from autoarray import exc
+    from harness.drivers import inv_common as ic
+
+    inst = json.loads(json.dumps(inst))
+    n = len(inst["u"])
+    rng = np.random.default_rng(n * 7 + dmode)
+    if dmode == 0:
+        inst["d"] = [int(x) for x in rng.integers(1, 9, size=n)]
+    elif dmode == 1:
+        inst["d"] = [int(x) for x in rng.integers(-4, 5, size=n)]
+    else:
+        inst["d"] = [int(x) for x in rng.integers(-8, 0, size=n)]
+    recs = []
+    ds, objs, skw = ic.build(inst)
+    # the documented meaning of the forced-zero set: boundary cells of every rectangular mesh, in parameter order
+    off, edge = 0, []
+    for o in inst["objs"]:
+        if o["type"] == "mapper":
+            my, mx = o["mesh"]
+            edge += [off + a * mx + c for a in range(my) for c in range(mx) if a in (0, my - 1) or c in (0, mx - 1)]
+            off += my * mx
+        else:
+            off += len(o["M"][0])
+    for pos in (True, False):
+        for warm in ((True, False, None) if pos else (None,)):
+            for force in ((True, False) if pos else (False,)):
+                for use_w in (False, True):
+                    variant = f"inversion:pos={pos}:warm={warm}:force_edge={force}:w_tilde={use_w}"
+                    st = aa.SettingsInversion(use_w_tilde=use_w, use_positive_only_solver=pos, positive_only_uses_p_initial=warm,
+                                              force_edge_pixels_to_zeros=force, **skw)
+                    try:
+                        _, objs2, _ = ic.build(inst)
+                        inv = aa.Inversion(dataset=ds, linear_obj_list=objs2, settings=st)
+                        A = np.array(inv.curvature_reg_matrix, dtype=float).copy()
+                        b = np.array(inv.data_vector, dtype=float).copy()
+                    except Exception as e:
+                        raise core.MachineryError(f"could not build inversion: {e!r}")
+                    try:
+                        s = np.array(inv.reconstruction, dtype=float)
+                    except exc.InversionException as e:
+                        if pos:
+                            r = _system_record(A, b, np.zeros(len(b)), "forced" if force else "nnls", variant, edge if force else None)
+                            r["raised"] = True
+                            r["err"] = "InversionException"
+                            recs.append(r)
+                        continue  # the unconstrained solver may raise (degenerate-solution check)
+                    recs.append(_system_record(A, b, s, ("forced" if force else "nnls") if pos else "solve", variant, edge if (pos and force) else None))
+                    # per-object model data
+                    try:
+                        md = inv.mapped_reconstructed_data_dict
+                        total = np.array(inv.mapped_reconstructed_data, dtype=float)
+                        oml = inv.operated_mapping_matrix_list
+                        rd = inv.reconstruction_dict
+                        Bs = [np.array(x, dtype=float) for x in oml]
+                        aB = _pow2_scale(max(float(np.abs(B_).max()) for B_ in Bs), 2.0 ** 12)
+                        g = _pow2_scale(max(float(np.abs(s).max()), 1e-30), 2.0 ** 12)
+                        ob = []
+                        for lo, B_ in zip(objs2, Bs):
+                            ob.append({"bm": np.rint(B_ * aB).astype(np.int64).tolist(), "sigma": np.rint(np.array(rd[lo], dtype=float) * g).astype(np.int64).tolist(),
+                                       "m": np.rint(np.array(md[lo], dtype=float) * aB * g).astype(np.int64).tolist()})
+                        recs.append({"p": "C05", "api": "mapped", "variant": variant, "raised": False, "objs": ob, "unc_has_nonpositive": False,
+                                     "total": np.rint(total * aB * g).astype(np.int64).tolist()})
+                    except exc.InversionException:
+                        pass
+                    except Exception as e:  # an exception on a well-posed inversion is an outcome to be judged, not a crash
+                        recs.append({"p": "C05", "api": "mapped", "variant": variant, "raised": True, "spd": True, "err": f"{type(e).__name__}: {str(e)[:80]}",
+                                     "objs": [], "total": [], "unc_has_nonpositive": False})
+    return recs
+
+
+def _inv_many(args):
+    out = []
+    for inst, dmode in args:
+        rr = inversion_records(inst, dmode)
+        for r in rr:
+            r["_inv"] = {"instance": inst, "dmode": dmode}
+        out.extend(rr)
+    return out
+
+
 def validate(ctx, recs, tag, chunk=1500):
     import concurrent.futures as cf
 
+    invctx = {}
     for k, r in enumerate(recs):
         r["id"] = k
+        invctx[k] = r.pop("_inv", None)
     chunks = [recs[k : k + chunk] for k in range(0, len(recs), chunk)]
     rejects = []
     env = insts_file(ctx, [{"A": [[1]], "b": [1]}], "dummy_insts.json")
@@ -214,9 +326,10 @@ def validate(ctx, recs, tag, chunk=1500):
             rejects.extend(rej)
     for rj in rejects:
         rec = recs[rj["id"]]
-        ctx.violation(rj["sig"], f"{rec['api']}/{rec['variant']} on A={rec['a']} b={rec['beta']}: result*{rec['gamma']}={rec['sigma']}"
+        ctx.violation(rj["sig"], f"{rec['api']}/{rec['variant']} on A={rec.get('a')} b={rec.get('beta')}: result*{rec.get('gamma')}={rec.get('sigma')}"
                       f"{' raised ' + rec.get('err', '') if rec['raised'] else ''} failed {rj['clauses']}",
-                      {"record": rec, "failed_clauses": rj["clauses"], "spec_wanted": rj.get("want")}, cls=",".join(rj["clauses"]))
+                      {"record": rec, "inversion": invctx.get(rj["id"]), "failed_clauses": rj["clauses"], "spec_wanted": rj.get("want")},
+                      cls=",".join(rj["clauses"]))
     return rejects
 
 
@@ -252,6 +365,23 @@ def run(ctx):
     groups = [[(x, None) for x in large[k : k + 20]] for k in range(0, len(large), 20)]
     for part in core.pmap(_many, groups):
         recs.extend(part)
+    # inversion level (real aa.Inversion objects on lattice datasets): settings matrix, forced zeros, per-object model data
+    from harness.drivers import inv_common as ic
+    n_inv = 24 if quick else 240
+    invs = []
+    while len(invs) < n_inv:
+        i = ic.random_instance(rng, H=7, W=7, interior=3, layouts=("m", "mf", "fm", "mm", "fmf"), kshapes=((1, 1), (3, 3), (1, 3), (3, 1)),
+                               signed_kernel=False)
+        for o in i["objs"]:
+            if o["type"] == "mapper":
+                o["reg"] = True
+            else:
+                o["me"] = 0
+        if len(i["u"]) >= 5:
+            invs.append((i, len(invs) % 3))
+    ctx.bounds["inversion_level_instances"] = n_inv
+    for part in core.pmap(_inv_many, [invs[k : k + 2] for k in range(0, len(invs), 2)]):
+        recs.extend(part)
     ctx.sample({"instance": small[len(small) // 2], "exact_optimum": opt[len(small) // 2 + 1]})
     ctx.sample({k: v for k, v in recs[-2].items()})
     validate(ctx, recs, "C05")
@@ -262,7 +392,10 @@ def run(ctx):
 
 def replay(ctx, rp):
     rec = rp["record"]
-    recs = [r for r in records_for({"A": rec["a"], "b": rec["beta"]}) if r["variant"] == rec["variant"]]
+    if rp.get("inversion"):
+        recs = [r for r in _inv_many([(rp["inversion"]["instance"], rp["inversion"]["dmode"])]) if r["variant"] == rec["variant"] and r["api"] == rec["api"]]
+    else:
+        recs = [r for r in records_for({"A": rec["a"], "b": rec["beta"]}) if r["variant"] == rec["variant"]]
     rej = validate(ctx, recs, "replay")
     print("replayed", len(recs), "records; rejected:", [r["clauses"] for r in rej])
     return ctx.finish()
